@@ -25,7 +25,7 @@ BASE = {'kind': '', 'kinds': [], 'text': [], 'outcome': '', 'start': 1, 'err': {
 def render_kind(k, i):
     return {'stmt': f'v{i} = {i}', 'function': f'function fn{i}(a, b):', 'endfunction': 'endfunction', 'if': 'if c1:', 'elif': 'elif c2:',
             'else': 'else:', 'endif': 'endif', 'while': 'while c3:', 'endwhile': 'endwhile', 'for': 'for e, ix in arr:', 'endfor': 'endfor',
-            'break': 'break', 'continue': 'continue', 'pending': f'w{i} = 1 + \\'}[k]
+            'break': 'break', 'continue': 'continue', 'pending': (f'w{i} = 1 + \\', '\\', '   \\  ', f'w{i} = 1 + \\')[i % 4]}[k]
 
 
 def parse_outcome(text, start=1):
